@@ -107,6 +107,7 @@ def run(prop, tier, seed, verdict):
     scripts = [gen_script(rng, i, fixed[i] if i < len(fixed) else None) for i in range(n)]
     nstress = 60 if tier == "quick" else 3000
     nrelay = 40 if tier == "quick" else 1500
+    npipe = 24 if tier == "quick" else 600
     shards = 16
     jobs = []
     for s in range(shards):
@@ -121,6 +122,10 @@ def run(prop, tier, seed, verdict):
         for j in range(nrelay):
             if j % 8 == s:
                 lines += ["case r%d" % j, "relay %d %d %d %d" % (seed * 7919 + j, rng.choice([1, 2, 3, 6]), rng.choice([5, 40, 200]), rng.choice([0, 10, 100]))]
+        # the whole input path (port -> relay -> fan-out -> device queues) with consumers that let it back up completely
+        for j in range(npipe):
+            if j % 8 == s:
+                lines += ["case p%d" % j, "pipe %d %d %d" % (seed * 104729 + j, rng.choice([1, 2, 3]), rng.choice([20, 40, 64, 150]))]
         rjobs.append((mbin, "\n".join(lines) + "\n", workdir, "r%d" % s))
     G = {}
     with concurrent.futures.ThreadPoolExecutor(max_workers=shards) as ex:
@@ -225,6 +230,26 @@ def run(prop, tier, seed, verdict):
             verdict.violation({"clause": "relay-output-count"}, {"relay": "case r%d" % j, "port": len(port), "sent": sum(len(s) for s in sent)}, True)
         if [x for x in f["in_got"].split(",") if x] != [x for x in f["in_sent"].split(",") if x]:
             verdict.violation({"clause": "relay-input"}, {"relay": "case r%d" % j, "sent": f["in_sent"][:300], "got": f["in_got"][:300]}, True)
+    # ---- whole input path under backlog
+    counts["pipeline-runs"] = 0
+    for j in range(npipe):
+        l = [x for x in G.get("p%d" % j, []) if x]
+        if not l or " | " not in l[0]:
+            verdict.violation({"clause": "runner-crash"}, {"case": "pipe %d" % j, "got": l[:1]}, False)
+            continue
+        f = dict(p.split("=", 1) for p in l[0].split(" | "))
+        counts["pipeline-runs"] += 1
+        sent = [x for x in f["sent"].split(",") if x]
+        for k, g in enumerate(f["got"].split(";")):
+            got = [x for x in g.split(",") if x]
+            if got != sent:
+                first = next((i for i in range(min(len(got), len(sent))) if got[i] != sent[i]), min(len(got), len(sent)))
+                verdict.violation({"clause": "input-path"},
+                                  {"pipe": "case p%d" % j, "consumer": k, "first_difference_at": first, "sent": sent[max(0, first - 2):first + 3],
+                                   "got": got[max(0, first - 2):first + 3], "sent_count": len(sent), "got_count": len(got),
+                                   "what": "a device connected for the whole run did not receive the input stream byte-for-byte, exactly once, in order "
+                                           "(port -> ProcessMidiEvents -> DynamicFanOut -> device queue, consumers reading late)"}, True)
+                break
     if first_disag and not verdict.violations:
         ops, gl, ml = first_disag
         verdict.violation({"clause": "correspondence"},
